@@ -149,6 +149,9 @@ class GenX(F.Gen):
                 return False
             if s['s'] == 'print' and self.no_print:
                 return False
+            if s['s'] == 'print' and 'printrefs' not in self.f and \
+                    (any(c['f'] in self.user_functions for c in call_exprs(s['items'])) or mentions(s['items']) & {'c1', 'c2', 'c3'}):
+                return False      # PRINT items that the transformation would have to rewrite: slice of its own
             if s['s'] == 'assign' and s['lhs']['name'] in self.forbid_write:
                 return False
         return True
@@ -222,7 +225,9 @@ class GenX(F.Gen):
             pass
         sub.helpers = [h for h in lower if h['ck'] == 'modsub'] if ck in ('modsub', 'intsub') else []
         funs = [h for h in lower if h['ck'] in (('elemental',) if ck == 'elemental' else ('modfun', 'elemental'))]
-        sub.leaf_extra = [h['mkleaf'] for h in funs] + list(self.const_leaves if ck in ('intsub', 'intfun') else [])
+        sub.leaf_extra = [h['mkleaf'] for h in funs] + list(self.const_leaves if ck in ('intsub', 'intfun') and 'constinternal' in self.f else [])
+        sub.user_functions = {h['name'] for h in funs}
+        sub.fn_leaves = [h['mkleaf'] for h in funs]
         sub.p_extra = 0.12 if sub.leaf_extra else 0.0
         sub.nest_marked = self.nest_marked
         body = sub.block(depth, nstmts)
@@ -249,7 +254,7 @@ class GenX(F.Gen):
             elif r == L:
                 nm[s] = s if keep_locals else s + 'c'
             elif r == 'RES':
-                nm[s] = 'res'
+                nm[s] = 'res' if 'resclash' in self.f else name if rng.random() < 0.4 else 'r' + name
             else:
                 nm[s] = s
         if isfun and not ident:
@@ -266,7 +271,7 @@ class GenX(F.Gen):
         for s in STD_ORDER:
             if roles.get(s) in (L, 'RES'):
                 decls.append(decl(nm[s], STD_TYPES[s], 'local', sub.arrays.get(s, ())))
-        u = unit(name, args, decls, body, kind='function' if isfun else 'subroutine', result='res' if isfun else '', host=host)
+        u = unit(name, args, decls, body, kind='function' if isfun else 'subroutine', result=nm['k'] if isfun else '', host=host)
         u['mod'] = mod
         u['ck'] = ck
         if ck == 'elemental':
@@ -394,7 +399,8 @@ class GenX(F.Gen):
         self.extra_int_arrays = ['la']
         self.nest_marked = 'nested' in f
         layout = {'helper_mod': 'hmod' if ('imported' in f or rng.random() < 0.5) else 'kmod',
-                  'use_at': rng.choice(['module', 'routine']), 'consts': [], 'fn_first': rng.random() < 0.5}
+                  'use_at': rng.choice(['module', 'routine']), 'consts': [], 'fn_first': rng.random() < 0.5,
+                  'jprb': 'selected_real_kind(13, 300)' if ('kindfn' in f or not ({'consts', 'localconst'} & f)) else '8'}
         if 'samemod' in f:
             layout['helper_mod'] = 'kmod'
         hm = layout['helper_mod']
@@ -404,7 +410,8 @@ class GenX(F.Gen):
         self.const_leaves = []
         if 'consts' in f:
             c1, c2 = rng.choice([2, 3, 4]), rng.choice([1, 2])
-            layout['consts'] = [{'name': 'c1', 'type': 'int', 'ftext': str(c1)}, {'name': 'c2', 'type': 'int', 'ftext': f'c1 + {c2}'}]
+            layout['consts'] = [{'name': 'c1', 'type': 'int', 'ftext': str(c1)},
+                                {'name': 'c2', 'type': 'int', 'ftext': f'c1 + {c2}' if 'constdep' in f else f'{c1} + {c2}'}]
             kdecls_extra += [dict(decl('c1', 'int', 'local', (), N(c1)), param='cmod'),
                              dict(decl('c2', 'int', 'local', (), op('sum', N(c1), N(c2))), param='cmod')]
             self.const_leaves += [lambda g, sc: V('c1'), lambda g, sc: V('c2')]
@@ -582,7 +589,8 @@ def insert_regions(rng, kernel, count, *, overrides=True, names=True, allow_asso
 
 
 # ----------------------------------------------------------------------------- renderer (several modules)
-JPRB = '  integer, parameter :: jprb = selected_real_kind(13, 300)'
+def jprb_line(prog):
+    return '  integer, parameter :: jprb = ' + prog['layout'].get('jprb', 'selected_real_kind(13, 300)')
 
 
 def _kwcalls(ss):
@@ -613,7 +621,7 @@ def render_unit(u, prog, ind=2):
     args = ', '.join(u['args'])
     pre = 'elemental ' if u.get('elemental') else ''
     head = f"{pad}{pre}subroutine {u['name']}({args})" if u['kind'] == 'subroutine' else \
-        f"{pad}{pre}function {u['name']}({args}) result({u['result']})"
+        f"{pad}{pre}function {u['name']}({args})" + (f" result({u['result']})" if u['result'] != u['name'] else '')
     lines = [head]
     names = {x['name']: x for x in prog['units']}
     if layout['use_at'] == 'routine' and not u['host']:
@@ -658,7 +666,7 @@ def render_modules(prog):
     kernel = prog['units'][0]
     consts = [c for c in layout['consts'] if any(d['name'] == c['name'] for d in kernel['decls'])]
     if consts:
-        L = ['module cmod', '  implicit none', JPRB]
+        L = ['module cmod', '  implicit none', jprb_line(prog)]
         for c in consts:
             L.append(f"  {F.TYPES[c['type']]}, parameter :: {c['name']} = {c['ftext']}")
         L.append('end module cmod')
@@ -680,7 +688,7 @@ def render_modules(prog):
                 L.append(f"  use hmod, only: {', '.join(ext)}")
             if consts:
                 L.append(f"  use cmod, only: {', '.join(c['name'] for c in consts)}")
-        L += ['  implicit none', JPRB, 'contains']
+        L += ['  implicit none', jprb_line(prog), 'contains']
         for u in us:
             L += render_unit(u, prog, 2)
         L.append(f'end module {mod}')
